@@ -1,12 +1,18 @@
-(* Facts about the tables regenerated from the source (Gen/G_OperatorTable.v) that the grammar-layer theorems need. *)
+(* C01 / C20 over the tables regenerated from the source: the decidable side conditions of ParserProofs hold of Gen/G_OperatorTable.v,
+   Gen/G_Keywords.v by computation, so the generic theorems of ParserBodies apply to the parser as it is written today. *)
 From Coq Require Import ZArith NArith List Bool String Lia.
-From ChaiV Require Import NumDefs Ast LexDefs ParserDefs.
+From ChaiV Require Import NumDefs Ast LexDefs LexProofs LexLitProofs ParserLexProofs ParserDefs ParserProofs ParserBodies.
 From ChaiV.Gen Require Import G_IntLadder G_Keywords G_OperatorTable.
 Import ListNotations.
 Local Open Scope string_scope.
 
+Definition A := alphabets_gen.
+Definition T := int_tables_gen.
+Definition K := kw_tables_gen.
+Definition G := gtables_gen.
+
 (* the depth limit the model's with_depth uses is the one the source instantiates *)
-Lemma max_depth_gen_ok : g_max_depth gtables_gen = max_parse_depth.
+Lemma max_depth_gen_ok : g_max_depth G = max_parse_depth.
 Proof. reflexivity. Qed.
 
 (* the functions that open a Depth_Counter first thing are exactly the ones the model wraps in with_depth *)
@@ -20,27 +26,21 @@ Proof. reflexivity. Qed.
 Lemma lex_counted_gen_ok : lex_counted_gen = ["Quoted_String"; "Single_Quoted_String"; "Char"; "Keyword"; "Symbol"; "Eos"; "Eol"].
 Proof. reflexivity. Qed.
 
-(* the ladder ends in Prefix and has no Prefix before: Operator(k) recurses exactly to k = length - 1 *)
-Definition ladder_ok (G : gtables) : bool :=
-  match rev (g_operators G) with
-  | Prefix :: r => forallb (fun o => negb (op_prec_eqb o Prefix)) r
-  | _ => false
-  end.
-Lemma ladder_gen_ok : ladder_ok gtables_gen = true.
-Proof. reflexivity. Qed.
-(* no symbol of a precedence group, of Equation or of Prefix is empty: a successful Symbol() consumes input *)
-Definition symbols_nonempty (G : gtables) : bool :=
-  forallb (forallb (fun s => negb (Nat.eqb (List.length s) 0))) (g_matches G)
-  && forallb (fun s => negb (Nat.eqb (List.length s) 0)) (g_equation G)
-  && forallb (fun s => negb (Nat.eqb (List.length s) 0)) (g_prefix G).
-Lemma symbols_gen_ok : symbols_nonempty gtables_gen = true.
-Proof. reflexivity. Qed.
-(* no precedence level is left without an action (OA_Unreachable is the assert(false) of the Prefix case only) *)
-Definition actions_ok (G : gtables) : bool :=
-  forallb (fun o => op_prec_eqb o Prefix ||
-                    match find (fun e => op_prec_eqb (fst e) o) (g_actions G) with
-                    | Some (_, OA_Unreachable) | None => false
-                    | Some _ => true
-                    end) (g_operators G).
-Lemma actions_gen_ok : actions_ok gtables_gen = true.
-Proof. reflexivity. Qed.
+(* keywords exist and are non-empty, no operator symbol is empty, the ladder ends in Prefix, every level has an action *)
+Lemma tables_gen_ok : tables_ok G = true.
+Proof. vm_compute. reflexivity. Qed.
+
+(* every identifier-start character is an identifier character (Id_ consumes what it starts on) *)
+Lemma id_sub_keyword_gen : forall c, in_alpha (a_id A) c = true -> in_alpha (a_keyword A) c = true.
+Proof.
+  assert (H : forallb (fun x => in_alpha (a_keyword A) x) (a_id A) = true) by (vm_compute; reflexivity).
+  rewrite forallb_forall in H. intros c Hc. unfold in_alpha in Hc. apply existsb_exists in Hc. destruct Hc as (x & Hx & E).
+  apply N.eqb_eq in E. subst x. apply H, Hx.
+Qed.
+
+Theorem parse_gen_no_crash : forall bytes file k, parse A T K G bytes file <> Crash k.
+Proof. exact (parse_no_crash A T K G id_sub_keyword_gen tables_gen_ok). Qed.
+Theorem parse_gen_no_out_of_fuel : forall bytes file, parse A T K G bytes file <> OutOfFuel.
+Proof. exact (parse_no_out_of_fuel A T K G id_sub_keyword_gen tables_gen_ok). Qed.
+Theorem parse_gen_root : forall bytes file n s', parse_full A T K G bytes file = Ok (n, s') -> root_ok bytes n s'.
+Proof. exact (parse_root A T K G id_sub_keyword_gen tables_gen_ok). Qed.
